@@ -262,6 +262,30 @@ theorem tps_marshal_injective (a c : List RawTP) (bs : Bytes)
 
 example : vAppend 300 = .ok [b 65, b 44] ∧ vAppend 44 = .ok [b 44] := by decide
 
+/-- **a caller-supplied GREASE value is emitted verbatim**, whatever `Length` says (0, equal,
+shorter, longer) and whatever the random source would serve; and the object is unchanged. -/
+theorem grease_override_verbatim (ov : Bytes) (h : ov ≠ []) (length : Nat) (drawn : Bytes) :
+    greaseValue ov length drawn = (ov, ov) := by
+  unfold greaseValue
+  cases ov with
+  | nil => exact absurd rfl h
+  | cons a t => rfl
+
+/-- without an override the value is `Length` drawn bytes, and it is frozen: the next `Value()`
+returns the same bytes whatever is drawn then (for `Length > 0`). -/
+theorem grease_drawn_frozen (length : Nat) (drawn drawn' : Bytes) (hl : 0 < length) (hd : length ≤ drawn.length) :
+    (greaseValue [] length drawn).2.length = length ∧
+    greaseValue (greaseValue [] length drawn).1 length drawn' = ((greaseValue [] length drawn).1, (greaseValue [] length drawn).2) := by
+  have h1 : (greaseValue [] length drawn) = (drawn.take length, drawn.take length) := rfl
+  rw [h1]
+  refine ⟨by simp [List.length_take]; omega, ?_⟩
+  apply grease_override_verbatim
+  intro h
+  have h' : drawn.take length = [] := h
+  have : (drawn.take length).length = 0 := by rw [h']; rfl
+  rw [List.length_take] at this
+  omega
+
 /-- `Marshal` panics only if some id does not fit 62 bits (a `len()` never reaches 2^62). -/
 theorem tps_marshal_total (tps : List RawTP)
     (hid : ∀ tp ∈ tps, tp.id < 4611686018427387904)
